@@ -22,7 +22,7 @@ cat = sys.modules['moPepGen.cli.call_alt_translation']
 PROPERTY = 'C04'
 ENGINE = 'c04-monitor'
 BUDGET_S = {'quick': 170, 'thorough': 1500}
-CASE_TIMEOUT_S = 900
+CASE_TIMEOUT_S = 1200
 STUBS = cv_sched.STUBS
 PROBES = ['kind_sched', 'kind_fault', 'kind_timeout', 'kind_oneshot', 'callNovelORF_nonempty',
           'callAltTranslation_nonempty', 'threads_gt_1', 'faulted_execution', 'retried_execution',
